@@ -6,6 +6,10 @@
 (*   ok / fail  a demand of the property, met / not met                    *)
 (*   tie        a demand whose expected value has no margin: excluded      *)
 (*   drift      a difference from the model outside the property           *)
+(* The property speaks of Phred scores under Phred-offset encodings and of  *)
+(* Solexa scores under the Solexa encoding; a score of one kind encoded or  *)
+(* decoded under an encoding of the other kind is compared with the         *)
+(* package's own conversion followed by the native rule, but only as drift. *)
 (***************************************************************************)
 EXTENDS Quality, SequencesExt, Json, IOUtils
 
@@ -48,7 +52,7 @@ PhredItems(e) == LET q == e.q IN
             \o D(EncodeSpec(enc, q) # UNDEF, e.enc[i] = EncodeSpec(enc, q), "Qphred.Encode byte",
                  enc \o " q=" \o S(q) \o " got " \o S(e.enc[i]) \o " want " \o S(EncodeSpec(enc, q)))
        ELSE IF enc = "Solexa"
-       THEN J(q \in PhredFinite /\ Printable(enc, e.qs), e.enc[i] = EncodeSpec(enc, e.qs), "Qphred.Encode(Solexa)",
+       THEN D(q \in PhredFinite /\ Printable(enc, e.qs), e.enc[i] = EncodeSpec(enc, e.qs), "Qphred.Encode(Solexa)",
               "q=" \o S(q) \o " converts to Solexa " \o S(e.qs) \o " but encodes to " \o S(e.enc[i])
               \o " want " \o S(EncodeSpec(enc, e.qs)))
        ELSE D(TRUE, e.enc[i] = 32, "Encode(None)", "q=" \o S(q) \o " got " \o S(e.enc[i])))
@@ -73,7 +77,7 @@ SolexaItems(e) == LET s == e.s IN
             \o D(Printable(enc, s), e.enc[i] = EncodeSpec(enc, s), "Qsolexa.Encode byte",
                  "s=" \o S(s) \o " got " \o S(e.enc[i]) \o " want " \o S(EncodeSpec(enc, s)))
        ELSE IF enc \in PhredOffsetEncs
-       THEN J(s \in SolexaFinite /\ Printable(enc, e.qp), e.enc[i] = EncodeSpec(enc, e.qp),
+       THEN D(s \in SolexaFinite /\ Printable(enc, e.qp), e.enc[i] = EncodeSpec(enc, e.qp),
               "Qsolexa.Encode(" \o enc \o ")",
               "s=" \o S(s) \o " converts to Phred " \o S(e.qp) \o " but encodes to " \o S(e.enc[i])
               \o " want " \o S(EncodeSpec(enc, e.qp)))
@@ -84,14 +88,14 @@ ByteItems(e) == LET b == e.b IN
     IF enc \in PhredOffsetEncs
     THEN J(PrintableByte(enc, b), e.dp[i] = Decode(enc, b), "DecodeToQphred",
            enc \o " byte " \o S(b) \o " got " \o S(e.dp[i]) \o " want " \o S(Decode(enc, b)))
-         \o J(PrintableByte(enc, b), e.ds[i] = (IF Off(enc) = 33 THEN e.p2s33 ELSE e.p2s64), "DecodeToQsolexa(Phred offset)",
+         \o D(PrintableByte(enc, b), e.ds[i] = (IF Off(enc) = 33 THEN e.p2s33 ELSE e.p2s64), "DecodeToQsolexa(Phred offset)",
               enc \o " byte " \o S(b) \o " got " \o S(e.ds[i]) \o " but the decoded Phred score converts to "
               \o S(IF Off(enc) = 33 THEN e.p2s33 ELSE e.p2s64))
          \o D(PrintableByte(enc, b), e.rp[i] = b, "Encode(Decode(byte))", enc \o " byte " \o S(b) \o " re-encodes to " \o S(e.rp[i]))
     ELSE IF enc = "Solexa"
     THEN J(PrintableByte(enc, b), e.ds[i] = Decode(enc, b), "DecodeToQsolexa",
            "byte " \o S(b) \o " got " \o S(e.ds[i]) \o " want " \o S(Decode(enc, b)))
-         \o J(PrintableByte(enc, b), e.dp[i] = e.s2p64, "DecodeToQphred(Solexa)",
+         \o D(PrintableByte(enc, b), e.dp[i] = e.s2p64, "DecodeToQphred(Solexa)",
               "byte " \o S(b) \o " got " \o S(e.dp[i]) \o " but the decoded Solexa score converts to " \o S(e.s2p64))
          \o D(PrintableByte(enc, b), e.rs[i] = b, "Encode(Decode(byte))", "Solexa byte " \o S(b) \o " re-encodes to " \o S(e.rs[i]))
     ELSE D(TRUE, e.dp[i] = 255 /\ e.ds[i] = -128, "Decode(None)", "byte " \o S(b)))
